@@ -7,6 +7,7 @@ from gen import header
 
 LEVEL_NOTE = [
     "theorems C03.linelen_iff / linelen_nodup / newline_column / code_line_reported_iff / line_comment_iff / block_comment_iff / counters_exact are about Model/Limits.lean (the decision points of CheckLineLen, CheckCommentLineLen, CheckBrace, CheckFunctionsCount, CheckFuncDeclaration, CheckVariableDeclaration) and the position spec: the NEWLINE token ending a line of visual width w is at column w+1 (from C09/C19), so a code line ending in a newline is reported iff w > 80; CheckLineLen is in the `_rule` list (obligation on the regenerated registry) and every token is in exactly one statement (C07)",
+    "end to end (C03.linelen_e2e / linelen_source / long_line_reported / short_lines_silent): for EVERY rule table, on every file that reaches a verdict, the lines CheckLineLen reports are exactly the lines holding a token whose first character is at a visual column beyond 81; a code line wider than 80 columns that ends in a newline token is reported wherever it is. Tie: `always` stream — source text -> model lexer -> engine loop replaying the observed rule decisions -> model CheckLineLen, compared with what the real CheckLineLen emitted",
     "tie: `linelen` / `commentlen` snapshot correspondences (every real call of the two rules is replayed through the model) + the boundary oracle below (each limit at L-3..L+6 in generated contexts)",
 ]
 PARTIAL = [
@@ -144,9 +145,12 @@ def run(res, tier, br, model_ok=True, search=False):
     rng = random.Random(res.seed + 131)
     big = tier == "thorough" or search
     reqs, metas = [], []
+    e2e = []        # sources for the end-to-end stream (source -> model lexer -> engine -> CheckLineLen)
 
     def check(name, src, code, line, expected, kind, n, L):
         outcome, diags, calls = observe(name, src)
+        if code == "LINE_TOO_LONG":
+            e2e.append((name, src))
         res.count("boundary", 1, **{kind.split("-")[0]: 1})
         res.nontriv((kind, n, src[-300:]))
         rp = {"kind": "limit", "name": name, "src": src, "code": code, "line": line, "expected": expected, "what": f"{kind} n={n} limit={L}"}
@@ -231,6 +235,9 @@ def run(res, tier, br, model_ok=True, search=False):
                 first = first or (rp.get("name"), rp.get("what"), new, str(m)[:160])
         if nbad:
             res.broken.append(f"correspondence linelen/commentlen (rule snapshots): {nbad} disagreements, e.g. {first}")
+    if model_ok:
+        import alwayscorr
+        alwayscorr.check(res, e2e + [(p.name, p.text) for p in families.programs(rng, 10 if big else 3)])
     res.sample({"boundary": "80/81 columns in 14 line kinds, 25/26 lines, 5/6 functions, 4/5 parameters, 5/6 variables"})
 
 
